@@ -49,6 +49,7 @@ long hl_call(const char *fn, int n, char **tok);
 /* proj.c */
 void proj_all(void);
 void proj_get(const char *fn, int n, char **tok);
+void proj_bundle(const char *what, int k);
 
 /* wrap.c */
 bool sched_hook_usleep(unsigned us);
